@@ -1,6 +1,8 @@
 """Developer tool (not a registered check): apply behaviour-preserving rewrites to /repo one at a time, run the
 checks of the properties they touch, undo.  Every line should end in OK.  usage: harmless_battery.py [case ...]"""
-import subprocess, sys, re, json
+import subprocess, sys, re, json, os
+REPO = os.environ.get('EVAL_REPO', '/repo'); VERIF = os.environ.get('EVAL_VERIF', '/verif')
+EXTRA = os.environ.get('BATTERY_EXTRA', '').split()   # further properties to run for every case (upper layers)
 def sh(c): return subprocess.run(c, shell=True, stdout=subprocess.PIPE, stderr=subprocess.STDOUT, text=True).stdout
 def edit(path, old, new, count=1):
     s=open(path,newline='').read()
@@ -9,30 +11,30 @@ def edit(path, old, new, count=1):
     assert old in s, (path, old[:60])
     open(path,'w',newline='').write(s.replace(old,new,count))
 CASES = {
- 'lib-lencheck-flip': (lambda: edit('/repo/src/lib.rs', 'if bytes.len() != 64 {', 'if 64 != bytes.len() {'), ['C08','C10']),
- 'u256-add-rename': (lambda: edit('/repo/src/u256.rs', 'let carry = self.0.add_with_carry(&other.0);\n        self.subtract_modulus_with_carry(modulo, carry);', 'let cy = self.0.add_with_carry(&other.0);\n        self.subtract_modulus_with_carry(modulo, cy);'), ['C06','C07']),
- 'comment-only': (lambda: edit('/repo/src/groups.rs', 'fn double(&self) -> Self {', 'fn double(&self) -> Self {\n        // doubling, a = 0'), ['C04']),
- 'added-unused-fn': (lambda: edit('/repo/src/u256.rs', '    pub fn is_even(&self) -> bool {', '    pub fn is_nonzero_dbg(&self) -> bool {\n        !self.is_zero()\n    }\n    #[inline]\n    pub fn is_even(&self) -> bool {'), ['C06','C13']),
- 'pairings-early-return-style': (lambda: edit('/repo/src/pairings.rs', '        let mut f = Fq12::one();\n        if g1.is_zero() || self.coeffs.is_empty() {\n            // e(O, Q) = e(P, O) = 1\n            return f;\n        }', '        if g1.is_zero() || self.coeffs.is_empty() {\n            return Fq12::one();\n        }\n        let mut f = Fq12::one();'), ['C03','C01']),
- 'groups-double-commute': (lambda: edit('/repo/src/groups.rs', 'let y1z1 = self.y * self.z;', 'let y1z1 = self.z * self.y;'), ['C04']),
- 'groups-add-commute': (lambda: edit('/repo/src/groups.rs', 'let z1_squared = self.z.squared();', 'let z1_squared = self.z * self.z;'), ['C04']),
- 'u256-mul-rename': (lambda: edit('/repo/src/u256.rs', 'let (carry, mut res) = self.mul_without_cond_subtract(other, modulo, inv);\n        res.subtract_modulus_with_carry(modulo, carry);', 'let (cy, mut res) = self.mul_without_cond_subtract(other, modulo, inv);\n        res.subtract_modulus_with_carry(modulo, cy);'), ['C06']),
- 'lib-fr-from-slice-let': (lambda: edit('/repo/src/lib.rs', '            32 => U256::from_slice(hex).ok().map(Fr::new_mul_factor),', '            32 => {\n                let v = U256::from_slice(hex).ok();\n                v.map(Fr::new_mul_factor)\n            }'), ['C13']),
- 'fp-sqrt-rename': (lambda: edit('/repo/src/fields/fp.rs', 'let a1a = self.pow(*FQ_MINUS1_DIV4);', 'let legendre_like = self.pow(*FQ_MINUS1_DIV4);') or edit('/repo/src/fields/fp.rs', 'a1a', 'legendre_like', 99), ['C14']),
- 'gt-pow-let': (lambda: edit('/repo/src/lib.rs', '        Gt(self.0.pow(exp.0))', '        let e = exp.0;\n        Gt(self.0.pow(e))'), ['C11']),
- 'pairing-match-swap-arms': (lambda: edit('/repo/src/pairings.rs', '(None, _) | (_, None) => Fq12::one(),', '(_, None) | (None, _) => Fq12::one(),'), ['C02']),
- 'groups-double-reorder': (lambda: edit('/repo/src/groups.rs', '        let a = self.x.squared();\n        let b = self.y.squared();', '        let b = self.y.squared();\n        let a = self.x.squared();'), ['C04','C05']),
+ 'lib-lencheck-flip': (lambda: edit(REPO + '/src/lib.rs', 'if bytes.len() != 64 {', 'if 64 != bytes.len() {'), ['C08','C10']),
+ 'u256-add-rename': (lambda: edit(REPO + '/src/u256.rs', 'let carry = self.0.add_with_carry(&other.0);\n        self.subtract_modulus_with_carry(modulo, carry);', 'let cy = self.0.add_with_carry(&other.0);\n        self.subtract_modulus_with_carry(modulo, cy);'), ['C06','C07']),
+ 'comment-only': (lambda: edit(REPO + '/src/groups.rs', 'fn double(&self) -> Self {', 'fn double(&self) -> Self {\n        // doubling, a = 0'), ['C04']),
+ 'added-unused-fn': (lambda: edit(REPO + '/src/u256.rs', '    pub fn is_even(&self) -> bool {', '    pub fn is_nonzero_dbg(&self) -> bool {\n        !self.is_zero()\n    }\n    #[inline]\n    pub fn is_even(&self) -> bool {'), ['C06','C13']),
+ 'pairings-early-return-style': (lambda: edit(REPO + '/src/pairings.rs', '        let mut f = Fq12::one();\n        if g1.is_zero() || self.coeffs.is_empty() {\n            // e(O, Q) = e(P, O) = 1\n            return f;\n        }', '        if g1.is_zero() || self.coeffs.is_empty() {\n            return Fq12::one();\n        }\n        let mut f = Fq12::one();'), ['C03','C01']),
+ 'groups-double-commute': (lambda: edit(REPO + '/src/groups.rs', 'let y1z1 = self.y * self.z;', 'let y1z1 = self.z * self.y;'), ['C04']),
+ 'groups-add-commute': (lambda: edit(REPO + '/src/groups.rs', 'let z1_squared = self.z.squared();', 'let z1_squared = self.z * self.z;'), ['C04']),
+ 'u256-mul-rename': (lambda: edit(REPO + '/src/u256.rs', 'let (carry, mut res) = self.mul_without_cond_subtract(other, modulo, inv);\n        res.subtract_modulus_with_carry(modulo, carry);', 'let (cy, mut res) = self.mul_without_cond_subtract(other, modulo, inv);\n        res.subtract_modulus_with_carry(modulo, cy);'), ['C06']),
+ 'lib-fr-from-slice-let': (lambda: edit(REPO + '/src/lib.rs', '            32 => U256::from_slice(hex).ok().map(Fr::new_mul_factor),', '            32 => {\n                let v = U256::from_slice(hex).ok();\n                v.map(Fr::new_mul_factor)\n            }'), ['C13']),
+ 'fp-sqrt-rename': (lambda: edit(REPO + '/src/fields/fp.rs', 'let a1a = self.pow(*FQ_MINUS1_DIV4);', 'let legendre_like = self.pow(*FQ_MINUS1_DIV4);') or edit(REPO + '/src/fields/fp.rs', 'a1a', 'legendre_like', 99), ['C14']),
+ 'gt-pow-let': (lambda: edit(REPO + '/src/lib.rs', '        Gt(self.0.pow(exp.0))', '        let e = exp.0;\n        Gt(self.0.pow(e))'), ['C11']),
+ 'pairing-match-swap-arms': (lambda: edit(REPO + '/src/pairings.rs', '(None, _) | (_, None) => Fq12::one(),', '(_, None) | (None, _) => Fq12::one(),'), ['C02']),
+ 'groups-double-reorder': (lambda: edit(REPO + '/src/groups.rs', '        let a = self.x.squared();\n        let b = self.y.squared();', '        let b = self.y.squared();\n        let a = self.x.squared();'), ['C04','C05']),
 }
 which = sys.argv[1:] or list(CASES)
 for name in which:
     fn, props = CASES[name]
-    sh('git -C /repo checkout -- .')
+    sh(f'git -C {REPO} checkout -- .')
     try:
         fn()
     except AssertionError as e:
         print(name, 'EDIT FAILED', e); continue
-    b = sh('cd /repo && cargo build --offline 2>&1 | tail -1')
-    for p in props:
-        o = sh(f'cd /verif && ./check {p} 2>&1 | grep -v WARN | tail -2')
+    b = sh(f'cd {REPO} && cargo build --offline 2>&1 | tail -1')
+    for p in props + [e for e in EXTRA if e not in props]:
+        o = sh(f'cd {VERIF} && VERIF_REPO={REPO} ./check {p} 2>&1 | grep -v WARN | tail -2')
         print(f'{name:30s} {p}: {o.strip()[:260]}')
-    sh('git -C /repo checkout -- .')
+    sh(f'git -C {REPO} checkout -- .')
